@@ -77,6 +77,8 @@ class Cones:
                         self._busy.discard(prod)
             else:
                 m.add(("load", it["path"], self.load_fp(it["path"])))
+        elif t == "lazy":
+            m.add(("lazy", "\n".join(ir.lazy_text(prog))))
         elif t == "shadow":
             m.add(("helper", it["name"], "\n".join(ir.shadow_text(it["name"]))))
         elif t == "ext":
